@@ -5,6 +5,7 @@ import ast
 import itertools
 import re
 
+from ..inline import inlined
 from ..model import AnalysisError, Program
 from ..report import Run
 from ..skel import BUILDER_CLASSES, recv_path, render
@@ -171,6 +172,7 @@ def _setters(program: Program, run: Run) -> None:
             f = c.methods.get(name)
             if f is None or not f.is_builder:
                 continue
+            f = inlined(program, f)     # a wrapping helper (`_row_count(self, limit)`) is read through
             n += 1
             got = {}
             reads = set()
